@@ -179,6 +179,12 @@ def check_class(spec, mode, variant):
                 if v != 'unsat' or c.equality_or_inequality != cond.sense:
                     ok, detail = False, 'block condition differs from the documented one at pair (%s, %s), block %d' % (a.x, b.x, k)
                     break
+                # C17: the name identifies condition (with its block) and the ordered pair it was generated for
+                lab = lambda smp: smp.x.get_name() or 'Point_%d' % [id(t) for t in map(lambda s_: s_.x, samples)].index(id(smp.x))
+                nm = c.get_name() or ''
+                if not (nm.endswith('(%s, %s)' % (lab(a), lab(b))) and ('block_%d(' % k) in nm):
+                    ok, detail = False, 'constraint of pair (%s, %s), block %d is named %r' % (lab(a), lab(b), k, nm)
+                    break
         matched[cond.name] += 1 if ok else 0
         obs.append(Ob('%s/direct[%s].formula_is_documented' % (pre, cond.name), 'unsat' if ok else 'sat', time.time() - t0, detail, model,
                       signature={'class': spec.cls, 'condition': cond.name}))
